@@ -2,13 +2,13 @@
 import interp_common
 from core import rng
 
-MODULES = ["Props.C13", "Props.RunTie", "Props.MatchTie", "Props.ControlTie", "Props.LastTie"]
+MODULES = ["Props.C13", "Props.RunTie", "Props.MatchTie", "Props.ControlTie", "Props.LastTie", "Props.WhenTie"]
 THEOREMS = ["Props.C13.c13_advance", "Props.C13.c13_last_blank", "Props.C13.c13_stop_ends_run", "Props.C13.c13_stop_cut", "Props.C13.c13_skip_cut",
             "Props.RunTie.consider_line_source_is_model", "Props.RunTie.advance_source",
             "Props.MatchTie.matches_source_is_model", "Props.MatchTie.c13_stop_cut_source", "Props.MatchTie.c13_skip_cut_source",
             "Props.ControlTie.stop_source_is_model", "Props.ControlTie.skip_source_is_model", "Props.ControlTie.c13_stop_cond_source",
             "Props.ControlTie.interp_stop_is_instance", "Props.ControlTie.interp_skip_is_instance",
-            "Props.LastTie.last_source_is_model", "Props.LastTie.c13_last_source", "Props.LastTie.interp_last"]
+            "Props.LastTie.last_source_is_model", "Props.LastTie.c13_last_source", "Props.LastTie.interp_last", "Props.WhenTie.c13_when_override_source"]
 
 
 def structured(seed, i):
